@@ -22,17 +22,17 @@ type Violation struct {
 
 // Result is what a child process (or several, merged) observed.
 type Result struct {
-	Evaluations  int64            `json:"evaluations"`
-	Nontrivial   []uint64         `json:"-"`
-	Events       map[string]int64 `json:"events"`
-	Features     map[string]int64 `json:"features"`
-	Max          map[string]int64 `json:"max"`
-	Samples      []any            `json:"samples"`
-	Violations   []Violation      `json:"violations"`
-	Discarded    int64            `json:"discarded"`
-	Inconclusive []string         `json:"inconclusive"`
-	Sets         map[string]map[string]bool `json:"sets"` // named sets of distinct small strings (states, interleavings)
-	NontrivialHex []string        `json:"nontrivial_hex,omitempty"`
+	Evaluations   int64                      `json:"evaluations"`
+	Nontrivial    []uint64                   `json:"-"`
+	Events        map[string]int64           `json:"events"`
+	Features      map[string]int64           `json:"features"`
+	Max           map[string]int64           `json:"max"`
+	Samples       []any                      `json:"samples"`
+	Violations    []Violation                `json:"violations"`
+	Discarded     int64                      `json:"discarded"`
+	Inconclusive  []string                   `json:"inconclusive"`
+	Sets          map[string]map[string]bool `json:"sets"` // named sets of distinct small strings (states, interleavings)
+	NontrivialHex []string                   `json:"nontrivial_hex,omitempty"`
 }
 
 func NewResult() *Result {
